@@ -661,8 +661,93 @@ LAW(V1_variables, RC, 30000, 1500000, 120, "a chain of >= 2 references, or an un
   CHECK(again == got, "resolving a second time changes the map (not a fixed point)");
 }
 
+// References that only exist after a substitution.  Values are sequences of pieces: plain words, a lone '$', a lone ')',
+// a bracketed name "(word)", a reference "$(key)" / "$(undefined)".  A '$' followed by "(word)" is a reference too, wherever the
+// two characters come from: written side by side, or the '$' ending one substituted value / literal and the '(' starting the next
+// substituted value ("$$(sel)" with sel = "(opt)").
+// By construction every '(' is closed by the ')' of its own piece (no syntax error possible), names contain no '$', '(' or ')',
+// and every name that can follow a '(' in the value of an entry (directly or after substitutions) has a larger rank (no cycle):
+// resolveVariables must not raise.  The rewriting  "$(name)" -> value of name ("" when undefined)  has no overlapping left sides
+// and terminates, so its normal form is unique whatever the order of the substitutions: that normal form is THE fixed point in
+// which no reference remains.  The reference below reduces the RIGHTMOST reference first (the library takes the leftmost).
+LAW(V2_variables_formed, RC, 20000, 1000000, 160, "a reference that only exists after a substitution ('$' and '(' are brought together by substituting a value)") {
+  int n = c.irange(0, 6);
+  vector<string> keys;
+  for (int i = 0; i < n; ++i) { string k = genWord(c, "abcxyz01_.", 1, 4); if (find(keys.begin(), keys.end(), k) == keys.end()) keys.push_back(k); }
+  n = static_cast<int>(keys.size());
+  for (int i = n - 1; i > 0; --i) swap(keys[static_cast<size_t>(i)], keys[c.below(static_cast<uint64_t>(i) + 1)]);
+  auto later = [&](int i) { return keys[static_cast<size_t>(i + 1) + c.below(static_cast<uint64_t>(n - i - 1))]; };
+  SMap am; vector<double> cost(static_cast<size_t>(n), 0);   // upper bound of the number of substitutions (the library gives up after 1000)
+  auto costOf = [&](const string& k) { size_t j = static_cast<size_t>(find(keys.begin(), keys.end(), k) - keys.begin()); return j < cost.size() ? 1 + cost[j] : 1.0; };
+  for (int i = n - 1; i >= 0; --i) {
+    int parts = c.irange(0, 4); string v; bool afterDollar = false;
+    for (int k = 0; k < parts; ++k) {
+      // after a lone '$' a reference or a bracketed name is more likely
+      size_t kind = afterDollar ? c.weighted({1, 1, 1, 3, 6, 1}) : c.weighted({3, 3, 1, 3, 4, 1});
+      afterDollar = false;
+      switch (kind) {
+        case 0: v += genWord(c, "ab/.-_1", 1, 3); break;
+        case 1: v += "$"; afterDollar = true; break;
+        case 2: v += ")"; break;
+        case 3: {
+          string w;
+          switch (c.weighted({3, 1, 1})) { case 0: w = i + 1 < n ? later(i) : string("w"); break; case 1: w = "undef" + to_string(c.below(3)); break; default: w = genWord(c, "ab.1_", 0, 3); if (find(keys.begin(), keys.end(), w) != keys.end()) w = "w"; }
+          v += "(" + w + ")"; cost[static_cast<size_t>(i)] += costOf(w); break;
+        }
+        case 4: if (i + 1 < n) { string w = later(i); v += "$(" + w + ")"; cost[static_cast<size_t>(i)] += costOf(w); } else v += "z"; break;
+        default: v += "$(undef" + to_string(c.below(3)) + ")"; cost[static_cast<size_t>(i)] += 1;
+      }
+    }
+    am[keys[static_cast<size_t>(i)]] = v;
+  }
+  c.desc << "map " << showMap(am);
+  for (double x : cost) if (x > 900) throw vf::Skip();
+  // reference normal forms, from the last rank upwards; tags: 'r' = the '$' of a reference written as such, 's' = substituted text
+  SMap want; bool formed = false, straddle = false;
+  for (int i = n - 1; i >= 0; --i) {
+    string v = am[keys[static_cast<size_t>(i)]], tag(v.size(), '.');
+    for (size_t p = v.find("$("); p != string::npos; p = v.find("$(", p + 1)) tag[p] = 'r';
+    for (int guard = 0;; ++guard) {
+      CHECK(guard < 100000, "internal: the reference normal form does not terminate");
+      size_t p = v.rfind("$(");
+      if (p == string::npos) break;
+      size_t e = v.find(')', p);
+      CHECK(e != string::npos, "internal: unclosed reference generated in " << q(v));
+      string name = v.substr(p + 2, e - p - 2), val;
+      if (am.count(name)) { CHECK(want.count(name), "internal: reference to a smaller rank generated: " << q(name)); val = want[name]; }
+      if (tag[p] != 'r') formed = true;
+      if (tag[p] != 'r' && tag[p + 1] == 's') straddle = true;
+      v = v.substr(0, p) + val + v.substr(e + 1);
+      tag = tag.substr(0, p) + string(val.size(), 's') + tag.substr(e + 1);
+    }
+    want[keys[static_cast<size_t>(i)]] = v;
+  }
+  c.nt(formed);
+  if (straddle) c.label("bracket_from_substituted_value");
+  SMap got = am;
+  try { AttributesTools::resolveVariables(got); }
+  catch (bpp::Exception& e) { CHECK(false, "resolveVariables raised although every reference is closed and the definitions are not cyclic: " << what1(e)); }
+  CHECK(got.size() == am.size(), "resolveVariables changed the set of keys: " << showMap(got));
+  for (auto& kv : got) CHECK(am.count(kv.first), "resolveVariables created the key " << q(kv.first));
+  // no resolvable reference remains: "$(name)" with name defined (definitions are acyclic by construction)
+  for (auto& kv : got)
+    for (size_t p = kv.second.find("$("); p != string::npos; p = kv.second.find("$(", p + 1)) {
+      size_t e = kv.second.find(')', p);
+      if (e == string::npos) continue;
+      string name = kv.second.substr(p + 2, e - p - 2);
+      CHECK(!am.count(name), "a resolvable reference remains: " << q(kv.first) << " = " << q(kv.second) << " although " << q(name) << " is defined (= " << q(got[name]) << "); result " << showMap(got));
+    }
+  // fixed point
+  SMap again = got;
+  try { AttributesTools::resolveVariables(again); }
+  catch (bpp::Exception& e) { CHECK(false, "resolving the result " << showMap(got) << " a second time raised: " << what1(e)); }
+  CHECK(again == got, "resolving a second time changes the map (not a fixed point): " << showMap(got) << " then " << showMap(again));
+  for (auto& kv : got)
+    CHECK(kv.second == want[kv.first], "value of " << q(kv.first) << " is " << q(kv.second) << ", the normal form of the substitutions is " << q(want[kv.first]));
+}
+
 // ====================================================================== tables
-LAW(D1_table, RC, 20000, 1000000, 160, "table with row names") {
+LAW(D1_table, RC, 20000, 1000000, 280, "table with row names") {
   const string sep(1, c.pick(vector<char>{'\t', ',', ';', ' '}));
   int nCol = c.irange(1, 6);
   bool colNames = !c.oneIn(3);
@@ -686,7 +771,11 @@ LAW(D1_table, RC, 20000, 1000000, 160, "table with row names") {
   if (colNames) dt.setColumnNames(cn);
   for (int i = 0; i < nRow; ++i) { if (rowNames) dt.addRow(rn[static_cast<size_t>(i)], cells[static_cast<size_t>(i)]); else dt.addRow(cells[static_cast<size_t>(i)]); }
   bool align = c.flag(), viaBpp = c.flag();
-  c.desc << nRow << "x" << nCol << " sep " << q(sep) << (align ? " alignHeaders" : "") << (viaBpp ? " bpp::OutputStream" : " std::ostream") << " colNames " << (colNames ? showList(cn) : string("none"))
+  // the `header` argument of read(): with column names only it must be true and without names false (otherwise the first line is,
+  // as documented, read as something else); with column AND row names the first line is one field shorter than the second and is
+  // documented to be taken as column names whatever `header` says: both values are used
+  const bool header = rowNames ? !c.flag() : colNames;
+  c.desc << nRow << "x" << nCol << " sep " << q(sep) << (header ? " header=true" : " header=false") << (align ? " alignHeaders" : "") << (viaBpp ? " bpp::OutputStream" : " std::ostream") << " colNames " << (colNames ? showList(cn) : string("none"))
          << " rowNames " << (rowNames ? showList(rn) : string("none")) << " cells";
   for (auto& r : cells) c.desc << " " << showList(r);
   c.nt(rowNames);
@@ -696,8 +785,9 @@ LAW(D1_table, RC, 20000, 1000000, 160, "table with row names") {
   CHECK(static_cast<int>(std::count(text.begin(), text.end(), '\n')) == nRow + (colNames ? 1 : 0), "the written table has an unexpected number of lines: " << q(text));
   istringstream is(text);
   unique_ptr<DataTable> rd;
-  try { rd = DataTable::read(is, sep, colNames, -1); }
-  catch (bpp::Exception& e) { CHECK(false, "DataTable::read raised on the written text " << q(text) << ": " << what1(e)); }
+  if (rowNames && !header) c.label("names_read_with_header_false");
+  try { rd = DataTable::read(is, sep, header, -1); }
+  catch (bpp::Exception& e) { CHECK(false, "DataTable::read(header=" << header << ") raised on the written text " << q(text) << ": " << what1(e)); }
   CHECK(rd->getNumberOfRows() == static_cast<size_t>(nRow) && rd->getNumberOfColumns() == static_cast<size_t>(nCol),
         "read back " << rd->getNumberOfRows() << "x" << rd->getNumberOfColumns() << " from " << q(text));
   CHECK(rd->hasColumnNames() == colNames, "hasColumnNames() = " << rd->hasColumnNames() << " after reading " << q(text));
@@ -713,11 +803,21 @@ LAW(D1_table, RC, 20000, 1000000, 160, "table with row names") {
 namespace {
 
 typedef unique_ptr<DiscreteDistributionInterface> DD;
-struct DFlags { bool fullPrec = false; int libInvariant = -1; bool truncExp = false, betaSmall = false, simple = false, invariant = false, uniform = false, gammaOffset = false, simpleRanges = false, unsortedRanges = false; int compounds = 0; };
+struct DFlags { bool fullPrec = false; bool ratProbas = false; int mixture3 = 0, uniformInMixture3 = 0; int libInvariant = -1; bool truncExp = false, betaSmall = false, simple = false, invariant = false, uniform = false, gammaOffset = false, simpleRanges = false, unsortedRanges = false; int compounds = 0; };
 double dec3(vf::Ctx& c, int loMilli, int hiMilli) { return c.irange(loMilli, hiMilli) / 1000.0; }  // 3-digit decimal
 
 // a distribution parameter: 3-digit decimal, or (fullPrec) any double of the range: the writer prints parameters with 12 decimals
 double par(vf::Ctx& c, const DFlags& f, int loMilli, int hiMilli) { return f.fullPrec ? c.real(loMilli / 1000.0, hiMilli / 1000.0) : dec3(c, loMilli, hiMilli); }
+// optionally replaces the probabilities by fractions w_i / sum(w) with w_i in 1..12, which have no short decimal expansion
+// (2/3, 1/6, 1/6 ...).  The case is then written on a stream with >= 15 digits (the reader refuses probabilities whose sum is
+// further than 1e-12 from 1: with fewer digits such a description is not a sufficient-precision rendering).
+// Drawn AFTER all other draws of the enclosing Simple / Mixture so that older replay files keep their meaning.
+void ratify(vf::Ctx& c, vector<double>& p, DFlags& f) {
+  if (p.size() < 2 || c.weighted({2, 1}) == 0) return;
+  vector<int> w; int sum = 0; for (size_t i = 0; i < p.size(); ++i) { w.push_back(c.irange(1, 12)); sum += w.back(); }
+  for (size_t i = 0; i < p.size(); ++i) p[i] = static_cast<double>(w[i]) / sum;
+  f.ratProbas = true;
+}
 // m probabilities, multiples of 1/1000, each >= 0.001, summing to 1
 vector<double> genProbas(vf::Ctx& c, size_t m) {
   vector<double> p; int left = 1000;
@@ -746,10 +846,12 @@ DD genLeaf(vf::Ctx& c, int maxN, ostringstream& ds, DFlags& f) {
       bool sorted = !c.oneIn(4);
       if (!sorted) for (size_t i = values.size(); i > 1; --i) swap(values[i - 1], values[c.below(i)]);
       vector<double> probas = genProbas(c, n);
-      ds << "Simple(values=("; for (size_t i = 0; i < n; ++i) ds << (i ? "," : "") << values[i]; ds << "),probas=("; for (size_t i = 0; i < n; ++i) ds << (i ? "," : "") << probas[i]; ds << ")";
-      if (c.oneIn(4)) {
-        map<size_t, vector<double>> ranges;
+      map<size_t, vector<double>> ranges;
+      if (c.oneIn(4))
         for (size_t i = 0; i < n; ++i) if (c.flag()) ranges[i + 1] = vector<double>{values[i] - dec3(c, 0, 2000), values[i] + dec3(c, 0, 2000)};
+      ratify(c, probas, f);
+      ds << "Simple(values=("; for (size_t i = 0; i < n; ++i) ds << (i ? "," : "") << values[i]; ds << "),probas=("; for (size_t i = 0; i < n; ++i) ds << (i ? "," : "") << probas[i]; ds << ")";
+      {
         if (!ranges.empty()) {
           f.simpleRanges = true;
           // a range whose parameter V_k is not the k-th smallest value (the writer lists the values in increasing order but keeps the index k)
@@ -773,9 +875,12 @@ DD genDist(vf::Ctx& c, int depth, int maxN, ostringstream& ds, DFlags& f) {
     return DD(new InvariantMixedDiscreteDistribution(std::move(in), p, libInv ? 0.000001 : 0.0));
   }
   if (k == 2) {
-    ++f.compounds; size_t m = static_cast<size_t>(c.irange(1, 3)); ds << "Mixture(";
+    ++f.compounds; size_t m = static_cast<size_t>(c.irange(1, depth == 0 ? 4 : 3)); ds << "Mixture(";
+    const bool uniformBefore = f.uniform; f.uniform = false;
     vector<DD> v; for (size_t i = 0; i < m; ++i) { ds << (i ? "," : "") << "dist" << i + 1 << "="; v.push_back(genDist(c, depth + 1, max(1, maxN / static_cast<int>(m)), ds, f)); }
-    vector<double> probas = genProbas(c, m);
+    if (m >= 3) { ++f.mixture3; if (f.uniform) ++f.uniformInMixture3; }
+    f.uniform = f.uniform || uniformBefore;
+    vector<double> probas = genProbas(c, m); ratify(c, probas, f);
     ds << ",probas=("; for (size_t i = 0; i < m; ++i) ds << (i ? "," : "") << probas[i]; ds << "))";
     return DD(new MixtureOfDiscreteDistributions(v, probas));
   }
@@ -784,13 +889,16 @@ DD genDist(vf::Ctx& c, int depth, int maxN, ostringstream& ds, DFlags& f) {
 
 }  // namespace
 
-LAW(P1_distribution, RC, 6000, 200000, 150, "compound distribution (Invariant / Mixture)") {
+LAW(P1_distribution, RC, 6000, 200000, 220, "compound distribution (Invariant / Mixture)") {
   ostringstream ds; DFlags f;
   f.fullPrec = c.oneIn(4); ds.precision(17);
   DD d = genDist(c, 0, 8, ds, f);
-  c.desc << ds.str();
+  // precision of the caller's stream: the default (6), or enough digits for arbitrary probabilities (15..17)
+  const int prec = f.ratProbas ? c.pick(vector<int>{15, 16, 17}) : c.pick(vector<int>{6, 15, 6, 16, 17});
+  c.desc << "stream precision " << prec << " " << ds.str();
   c.nt(f.compounds > 0);
   if (f.compounds > 1) c.label("nested_compound");
+  if (prec >= 15 && f.uniformInMixture3) c.label("precision>=15_mixture_of_3+_with_uniform");
   const size_t ncat = d->getNumberOfCategories();
   if (ncat < 1 || ncat > 8) throw vf::Skip();   // quantifier: 1..8 classes
   vector<double> cats = d->getCategories(), probs = d->getProbabilities();
@@ -802,7 +910,7 @@ LAW(P1_distribution, RC, 6000, 200000, 150, "compound distribution (Invariant / 
   // classes that the written precision cannot tell apart may merge when read back: not a regular input
   for (size_t i = 0; i + 1 < ncat; ++i) if (std::abs(cats[i + 1] - cats[i]) <= 10 * tol * max(1.0, std::abs(cats[i]))) throw vf::Skip();
   ostringstream os; map<string, string> aliases; vector<string> written;
-  { StlOutputStreamWrapper out(&os); BppODiscreteDistributionFormat w(false); w.writeDiscreteDistribution(*d, out, aliases, written); }
+  { StlOutputStreamWrapper out(&os); out.setPrecision(prec); BppODiscreteDistributionFormat w(false); w.writeDiscreteDistribution(*d, out, aliases, written); }
   const string text = os.str();
   c.desc << " written as " << q(text);
   if (f.uniform) c.excludeIfKnown("C17-uniform-not-written");
